@@ -11,7 +11,7 @@ import re
 import random
 from typing import Any, Dict, List, Optional, Tuple
 
-from rig import env, driver, shim, audit, h11util, monitors, resolver, gen_http as G
+from rig import env, driver, shim, audit, h11util, monitors, resolver, refcodec, gen_http as G
 
 env.quiet_logging()
 
@@ -142,6 +142,26 @@ def make_input(rng: random.Random, case: Dict[str, Any], up: bytes) -> bytes:
     raise ValueError(kind)
 
 
+def strictly_complete(data: bytes, req: Dict[str, Any]) -> bool:
+    """RFC 9112 with CRLF-only line endings: is the first request of ``data`` complete?
+    (h11 also accepts bare LF; input that is complete only under that leniency may be waited on.)"""
+    hdr_end = data.find(b'\r\n\r\n')
+    if hdr_end < 0 or re.search(rb'(?<!\r)\n', data[:hdr_end]):
+        return False
+    body = data[hdr_end + 4:]
+    hs = dict(req['headers'])
+    if b'chunked' in hs.get(b'transfer-encoding', b'').lower():
+        try:
+            refcodec.dechunk(body)
+        except (refcodec.Incomplete, refcodec.Malformed):
+            return False
+        return True
+    cl = hs.get(b'content-length')
+    if cl is not None:
+        return cl.isdigit() and len(body) >= int(cl)
+    return True
+
+
 def segment(rng: random.Random, data: bytes, seg: str) -> List[bytes]:
     if seg == 'whole' or len(data) < 2:
         return [data]
@@ -212,10 +232,11 @@ def run_case(case: Dict[str, Any]) -> Dict[str, Any]:
         msgs, err, left = h11util.parse_responses(rx, [method] * 8, eof=client.ended)
         reqs, rerr, _ = h11util.parse_requests(data)
         req_complete = bool(reqs) and reqs[0]['complete'] and not (rerr and len(reqs) < 1)
-        # h11 tolerates bare LF line endings; a proxy that keeps waiting for CRLF is within its rights
-        hdr_end = data.find(b'\r\n\r\n')
-        if hdr_end < 0 or re.search(rb'(?<!\r)\n', data[:hdr_end]):
+        # h11 tolerates bare LF line endings (header block *and* chunked framing); a proxy that keeps
+        # waiting for CRLF is within its rights.  'complete' = complete for h11 and for the strict grammar.
+        if req_complete and not strictly_complete(data, reqs[0]):
             req_complete = False
+            obs['h11-lenient-completion'] = 1
         relayed = b'X-From-Origin' in rx      # bytes produced by the harness origin, not by the proxy
         finals = [m for m in msgs if not m.get('interim')]
 
